@@ -33,14 +33,18 @@ Clause map
   restricted to unreached leaves lexed in the same mode, every deterministic driver (any function
   of the token stream, in particular any LR driver) ends in the same state incrementally and from
   scratch, for every `LexLocal` lexer.
-* stage 2, restricted — `subtree_reuse_sound`, `incr_eq_scratch_subtree` (LR.lean, Lemmas.lean):
-  over any deterministic table, pushing an old subtree that was built from state `s` out of tokens
-  `w` with follower `x` is exactly what the from-scratch machine computes from any stack with top
-  state `s` on `w · x · anything` (frame and unread-input independence), so both parses end in the
-  same stack.
-* the unrestricted `incr_eq_scratch` (GLR versions, error recovery, non-terminal extras, the dumped
-  table as `T`, the replayed run as the certificate `hbuilt`) and `incr_error_iff` — OPEN; on the
-  implementation whole-tree equality is DECIDED per case by `judge` (Judge.lean).
+* stage 2 — machine `LR.lean` (deterministic table, token extras, reduce = pop `n` non-extra entries
+  and re-push trailing extras), `Lemmas.lean` (frame / unread-input independence / composition):
+  `subtree_reuse_sound` (a run over `w ++ u` from state `s` on an empty frame is the same run on
+  top of any stack with top state `s`, whatever input follows), `incr_reaches`, `incr_eq_scratch`
+  (every incremental run = machine steps interleaved with certified subtree reuse, `LR.IncrRun`,
+  that halts ends in the configuration in which the from-scratch run of the same tokens halts:
+  same stack, same tree — by induction over the reuse events), `reused_not_lexed` (lexed + reused
+  = consumed tokens).  The certificates `LR.ReuseOK` are CHECKED on the real runtime's reuse events
+  by running this machine on the dumped tables (Judge.lean `certifyReuse`, Drivers/C01.lean).
+* OPEN: GLR versions, error recovery, non-terminal extras, keyword re-labelling inside the
+  machine; `incr_error_iff`.  On the implementation whole-tree equality is DECIDED per case by
+  `judge` (Judge.lean).
 * Genuine defect found by the judge (see the last section): a column-dependent token is reused
   although an included-range difference lies earlier on its line.  `reuseGate` therefore carries
   the input `lineDiff` = outcome of the extra test of the proposed repair (`lineDiffOf`), `false`
@@ -479,34 +483,109 @@ theorem incr_eq_scratch_tokens {σ μ : Type} [DecidableEq μ]
 /-! ## Stage 2 (restricted): subtree-level reuse over a deterministic table -/
 
 /-- `subtree_reuse_sound`: let the machine, started in state `s` on an EMPTY frame, turn the
-tokens `w` followed by the token `x` into the single subtree `t` for `A` in `k` steps (this is how
-the old parse built `t`: `ts_subtree_parse_state(t) = s`, follower `x`).  Then in ANY stack whose
-top state is `s`, on any input that starts with the same `w` and `x`, the same `k` steps of the
-from-scratch machine produce exactly the stack that the reuse shortcut produces by pushing `t`
-with the goto state — the stack below and the input behind `x` are irrelevant. -/
-theorem subtree_reuse_sound (T : LR.Table) (s A k : Nat) (w : List Tok) (x : Tok) (t : LR.PTree)
-    (hbuilt : LR.steps T s k [] (w ++ [x]) = some ([(T.goto s A, t)], [x]))
+tokens `w` followed by `u` into the configuration `c` in `k` steps (for the reuse of a subtree `t`:
+`c` = `t` with its goto state, below the extras that follow it, in front of the next real token).
+Then in ANY stack whose top state is `s`, on any input that starts with `w ++ u`, the same `k`
+steps of the from-scratch machine produce `c` on top of that stack — the stack below and the
+input behind `u` are irrelevant. -/
+theorem subtree_reuse_sound (T : LR.Table) (s k : Nat) (w u : List Tok) (c : LR.Stack × List Tok)
+    (hbuilt : LR.steps T s k [] (w ++ u) = some c)
     (bottom : Nat) (base : LR.Stack) (hs : LR.top bottom base = s) (rest : List Tok) :
-    LR.steps T bottom k base (w ++ x :: rest) = some (LR.reuseStep T bottom base A t, x :: rest) := by
-  have h1 := LR.steps_append T s rest k [] (w ++ [x]) _ _ hbuilt
+    LR.steps T bottom k base (w ++ u ++ rest) = some (c.1 ++ base, c.2 ++ rest) := by
+  have h1 := LR.steps_append T s rest k [] (w ++ u) _ _ hbuilt
   rw [← hs] at h1
   have h2 := LR.steps_frame T bottom base k [] _ _ _ h1
-  simp only [List.nil_append, List.append_assoc, List.cons_append] at h2
-  rw [h2]
-  simp [LR.reuseStep, hs]
+  simpa using h2
 
-/-- `incr_eq_scratch_subtree` (restricted stage 2): a deterministic LR parse that takes the
-shortcut — reuse a subtree whose parse state matches the current state and whose token sequence
-and follower are unchanged (`relex_*`, and `ts_parser__breakdown_top_of_stack` when the follower
-is not reused) — continues from exactly the configuration the from-scratch parse reaches, so both
-end in the same stack (the same tree), whatever follows.  Not covered: GLR, error recovery,
-fragile nodes (refused by the gate), non-terminal extras. -/
-theorem incr_eq_scratch_subtree (T : LR.Table) (s A k : Nat) (w : List Tok) (x : Tok) (t : LR.PTree)
-    (hbuilt : LR.steps T s k [] (w ++ [x]) = some ([(T.goto s A, t)], [x]))
-    (bottom : Nat) (base : LR.Stack) (hs : LR.top bottom base = s) (rest : List Tok) (m : Nat) :
-    LR.run T bottom (k + m) base (w ++ x :: rest) =
-      LR.run T bottom m (LR.reuseStep T bottom base A t) (x :: rest) :=
-  LR.run_steps T bottom m k base _ _ _ (subtree_reuse_sound T s A k w x t hbuilt bottom base hs rest)
+theorem steps_succ_final (T : LR.Table) (bottom : Nat) (d : LR.Stack × List Tok)
+    (hf : LR.step T bottom d.1 d.2 = none) (m : Nat) : LR.steps T bottom (m + 1) d.1 d.2 = none := by
+  rw [show m + 1 = Nat.succ m from rfl]
+  unfold LR.steps
+  rw [hf]
+
+/-- `incr_reaches`: every incremental run (machine steps interleaved with certified subtree
+reuse) that ends in a configuration where the machine halts (accept, error, end of input) is
+matched by a from-scratch run of the same machine ending in the same configuration. -/
+theorem incr_reaches (T : LR.Table) (bottom : Nat) (l r : Nat) (c d : LR.Stack × List Tok)
+    (h : LR.IncrRun T bottom l r c d) (hf : LR.step T bottom d.1 d.2 = none) :
+    ∃ n, LR.steps T bottom n c.1 c.2 = some d := by
+  induction h with
+  | done c => exact ⟨0, rfl⟩
+  | lexStep hs _ ih =>
+    obtain ⟨n, hn⟩ := ih hf
+    exact ⟨n + 1, by simp [LR.steps, hs, hn]⟩
+  | @reuse st A t w u rest l r d hok _ ih =>
+    obtain ⟨n, hn⟩ := ih hf
+    obtain ⟨k, j, c0, hk, hj⟩ := hok
+    -- both the scratch run over `w ++ u` and the reuse shortcut followed by `u` reach `C`
+    have hK := subtree_reuse_sound T _ k w u c0 hk bottom st rfl rest
+    have hJ0 := LR.steps_append T (LR.top bottom st) rest j _ u _ _ hj
+    have hJ := LR.steps_frame T bottom st j _ _ _ _ hJ0
+    simp only [List.singleton_append] at hJ
+    change LR.steps T bottom j (LR.reuseStep T bottom st A t) (u ++ rest) = _ at hJ
+    -- `j ≤ n`, otherwise the halted configuration `d` would have to step
+    have hjn : j ≤ n := by
+      by_cases hle : j ≤ n
+      · exact hle
+      · exfalso
+        have hsplit : j = n + ((j - n - 1) + 1) := by omega
+        rw [hsplit, LR.steps_add T bottom _ n _ _ _ _ hn, steps_succ_final T bottom d hf] at hJ
+        contradiction
+    have hrest : LR.steps T bottom (n - j) (c0.1 ++ st) (c0.2 ++ rest) = some d := by
+      have := LR.steps_add T bottom (n - j) j _ _ _ _ hJ
+      rw [show j + (n - j) = n by omega, hn] at this
+      exact this.symm
+    refine ⟨k + (n - j), ?_⟩
+    rw [LR.steps_add T bottom (n - j) k _ _ _ _ hK]
+    exact hrest
+
+theorem run_final (T : LR.Table) (bottom : Nat) (d : LR.Stack × List Tok)
+    (hf : LR.step T bottom d.1 d.2 = none) : ∀ m, LR.run T bottom m d.1 d.2 = d
+  | 0 => rfl
+  | m + 1 => by unfold LR.run; rw [hf]
+
+/-- `incr_eq_scratch` (error-free, GLR-free, token extras; no non-terminal extras): an
+incremental parse — any interleaving of machine steps and gate-approved, certified subtree reuse —
+that halts in configuration `d` ends exactly where the from-scratch parse of the same tokens ends:
+with enough fuel `run` returns `d`, i.e. the same stack and hence the same tree. -/
+theorem incr_eq_scratch (T : LR.Table) (bottom : Nat) (l r : Nat) (c d : LR.Stack × List Tok)
+    (h : LR.IncrRun T bottom l r c d) (hf : LR.step T bottom d.1 d.2 = none) :
+    ∃ n, ∀ m, LR.run T bottom (n + m) c.1 c.2 = d := by
+  obtain ⟨n, hn⟩ := incr_reaches T bottom l r c d h hf
+  refine ⟨n, fun m => ?_⟩
+  rw [LR.run_steps T bottom m n _ _ _ _ hn]
+  exact run_final T bottom d hf m
+
+theorem step_input (T : LR.Table) (bottom : Nat) (st st' : LR.Stack) (inp inp' : List Tok)
+    (h : LR.step T bottom st inp = some (st', inp')) : inp'.length ≤ inp.length := by
+  unfold LR.step at h
+  cases inp with
+  | nil => simp at h
+  | cons x rest =>
+    simp only at h
+    split at h
+    · simp only [Option.some.injEq, Prod.mk.injEq] at h; rw [← h.2]; simp
+    · simp only [Option.some.injEq, Prod.mk.injEq] at h; rw [← h.2]; simp
+    · split at h
+      · simp only [Option.some.injEq, Prod.mk.injEq] at h; rw [← h.2]; simp
+      · contradiction
+    · contradiction
+    · contradiction
+
+/-- `reused_not_lexed` / `lex_calls_bound` (C12): in an incremental run the tokens taken from the
+lexer and the tokens skipped below reused subtrees add up to the tokens consumed; the tokens of a
+reused subtree are never requested, and `lexed ≤ consumed − reused`. -/
+theorem reused_not_lexed (T : LR.Table) (bottom : Nat) (l r : Nat) (c d : LR.Stack × List Tok)
+    (h : LR.IncrRun T bottom l r c d) : l + r + d.2.length = c.2.length := by
+  induction h with
+  | done c => simp
+  | lexStep hs _ ih =>
+    have := step_input T bottom _ _ _ _ hs
+    simp only at ih ⊢
+    omega
+  | reuse _ _ ih =>
+    simp only [List.length_append] at ih ⊢
+    omega
 
 /-- A table for `S → A c`, `A → a b` (tokens a=1, b=2, c=3; non-terminal A=10): the hypothesis of
 `subtree_reuse_sound` holds for `w = [a, b]`, `x = c`, `s = 0`, `k = 3`. -/
@@ -523,8 +602,18 @@ def toyTable : LR.Table :=
 
 def tk (sym : Nat) : Tok := { sym := sym, pad := 0, size := 1, la := 1 }
 
-example : LR.steps toyTable 0 3 [] ([tk 1, tk 2] ++ [tk 3]) =
-    some ([(toyTable.goto 0 10, LR.PTree.node 10 [.leaf (tk 1), .leaf (tk 2)])], [tk 3]) := by rfl
+/-- The certificate of `IncrRun.reuse` holds for the subtree `A(a b)` with follower `c`, and an
+incremental run that reuses it exists (so `incr_eq_scratch` / `reused_not_lexed` are not vacuous):
+2 tokens are skipped, 1 is lexed. -/
+def toyA : LR.PTree := .node 10 [.leaf (tk 1), .leaf (tk 2)]
+
+theorem toy_cert : LR.ReuseOK toyTable 0 10 toyA [tk 1, tk 2] [tk 3] :=
+  ⟨3, 0, ([{ state := 3, tree := toyA, extra := false }], [tk 3]), by rfl, by rfl⟩
+
+example : LR.IncrRun toyTable 0 (0 + 1) (0 + 2) ([], [tk 1, tk 2] ++ [tk 3] ++ [])
+    ([{ state := 4, tree := .leaf (tk 3), extra := false }, { state := 3, tree := toyA, extra := false }], []) :=
+  LR.IncrRun.reuse (st := []) toy_cert
+    (LR.IncrRun.lexStep (inp := [tk 3]) (inp' := []) (by rfl) (LR.IncrRun.done _))
 
 /-! ## Non-vacuity -/
 
